@@ -2,7 +2,8 @@
     Each theorem is closed by [exact] and followed by [Print Assumptions]. *)
 From Coq Require Import Reals ZArith List Floats.
 From Celer Require Import Base.Num Base.NumR Base.NumF Base.Stream Base.Vec3
-  C15.Samplers C15.SamplersProofs C15.SamplersWitness C15.SamplersLaws C15.Eloss C15.ElossProofs.
+  C15.Samplers C15.SamplersProofs C15.SamplersWitness C15.SamplersLaws C15.Eloss C15.ElossProofs
+  C15.DensityLaws C15.Canonical C15.CanonicalProofs.
 Import ListNotations.
 Local Open Scope R_scope.
 
@@ -251,3 +252,126 @@ Theorem C15_eloss_gauss_window_symmetric : forall mean x : R,
   (0 < x < 2 * mean) <-> (0 < 2 * mean - x < 2 * mean).
 Proof. exact eloss_gauss_window_symmetric. Qed.
 Print Assumptions C15_eloss_gauss_window_symmetric.
+
+(** ** Part 5: density-level statements about the rejection / composite samplers
+    (the strongest statements about their law expressible without measure theory) *)
+
+(** (a) the acceptance function of RejectionSampler is a probability proportional to the target density *)
+Theorem C15_rejection_accept_probability : forall f fmax u s, 0 < fmax -> 0 <= f <= fmax ->
+  exists b, rejection (T:=R) f fmax (u :: s) = Some (b, s) /\
+    (b = false <-> u <= f / fmax) /\ 0 <= f / fmax <= 1.
+Proof. exact rejection_accept_probability. Qed.
+Print Assumptions C15_rejection_accept_probability.
+
+Theorem C15_rejection_accept_proportional : forall f1 f2 fmax, 0 < fmax -> 0 < f2 ->
+  (f1 / fmax) / (f2 / fmax) = f1 / f2.
+Proof. exact rejection_accept_proportional. Qed.
+Print Assumptions C15_rejection_accept_proportional.
+
+Theorem C15_bernoulli_accept_interval : forall p u s, 0 <= p <= 1 -> canonical u ->
+  exists b, bernoulli (T:=R) p (u :: s) = Some (b, s) /\ (b = true <-> 0 <= u < p) /\ (b = false <-> p <= u < 1).
+Proof. exact bernoulli_accept_interval. Qed.
+Print Assumptions C15_bernoulli_accept_interval.
+
+Theorem C15_bernoulli2_probability : forall st sf u s, 0 <= st -> 0 <= sf -> 0 < st + sf ->
+  exists b, bernoulli2 (T:=R) st sf (u :: s) = Some (b, s) /\ (b = true <-> u < st / (st + sf)) /\
+    0 <= st / (st + sf) <= 1.
+Proof. exact bernoulli2_probability. Qed.
+Print Assumptions C15_bernoulli2_probability.
+
+(** (b) Marsaglia-Tsang: squeeze soundness -- for every alpha > 0 (d = alpha' - 1/3 >= 2/3 as coded),
+    every z with v = 1 + z / sqrt(9 d) > 0 and every u > 0, passing the squeeze
+    u <= 1 - 0.0331 z^4 implies passing the exact test ln u <= z^2/2 + d (1 - v^3 + ln v^3) *)
+Theorem C15_gamma_squeeze_sound : forall alpha z u, 0 < alpha ->
+  let d := mt_alpha_p alpha - 1 / 3 in
+  let c := rsqrt (T:=R) (9 * d) in
+  let v := 1 + c * z in
+  0 < v -> 0 < u -> u <= 1 - 331 / 10000 * (z * z * (z * z)) ->
+  ln u <= 1 / 2 * (z * z) + d * (1 - v * v * v + ln (v * v * v)).
+Proof. exact gamma_squeeze_sound. Qed.
+Print Assumptions C15_gamma_squeeze_sound.
+
+(** hence the accepted set is exactly the exact-test set *)
+Theorem C15_gamma_accept_exact : forall alpha fuel st s x s', 0 < alpha ->
+  let d := mt_alpha_p alpha - 1 / 3 in
+  let c := rsqrt (T:=R) (9 * d) in
+  Forall (fun u => 0 < u) s ->
+  gamma_outer (T:=R) fuel d c st s = Some (x, s') ->
+  exists z v u, In u s /\ v = 1 + c * z /\ 0 < v /\ x = d * (v * v * v) /\
+    ln u <= 1 / 2 * (z * z) + d * (1 - v * v * v + ln (v * v * v)).
+Proof. exact gamma_accept_exact. Qed.
+Print Assumptions C15_gamma_accept_exact.
+
+(** alpha < 1: X_alpha = X_(alpha+1) u^(1/alpha) from the same stream *)
+Theorem C15_gamma_boost_identity : forall alpha beta s x s', 0 < alpha < 1 -> 0 < beta ->
+  Forall (fun u => 0 < u < 1) s ->
+  gamma (T:=R) alpha beta s = Some (x, s') ->
+  exists y u, gamma (T:=R) (alpha + 1) beta s = Some (y, u :: s') /\ 0 < y /\ 0 < u < 1 /\
+    x = y * Rpower u (1 / alpha) /\ Rpower (x / y) alpha = u /\ 0 < x < y.
+Proof. exact gamma_boost_identity. Qed.
+Print Assumptions C15_gamma_boost_identity.
+
+(** (c) Poisson direct method: prod_(i<=k) u_i > e^-lambda >= prod_(i<=k+1) u_i *)
+Theorem C15_poisson_direct_interarrival : forall lambda s k s', 0 < lambda <= 16 ->
+  poisson (T:=R) true lambda s = Some (k, s') ->
+  (0 <= k)%Z /\ length s = (Z.to_nat k + 1 + length s')%nat /\
+  (forall j, (j <= Z.to_nat k)%nat -> exp (- lambda) < uprod s j) /\
+  uprod s (Z.to_nat k + 1) <= exp (- lambda).
+Proof. exact poisson_direct_interarrival. Qed.
+Print Assumptions C15_poisson_direct_interarrival.
+
+(** (d) Box-Muller: the spare is the companion deviate *)
+Theorem C15_normal_spare_companion : forall mean sd u1 u2 s, 0 < u2 <= 1 ->
+  exists x1 x2, normal2 (T:=R) mean sd (u1 :: u2 :: s) = Some ((x1, x2), s) /\
+    let r := R_sqrt.sqrt (-2 * ln u2) in let theta := twopi * u1 in
+    x1 = mean + sd * (r * sin theta) /\ x2 = mean + sd * (r * cos theta) /\
+    (x1 - mean) * (x1 - mean) + (x2 - mean) * (x2 - mean) = sd * sd * (-2 * ln u2).
+Proof. exact normal_spare_companion. Qed.
+Print Assumptions C15_normal_spare_companion.
+
+(** (e) Tsai-Urban: branch conditions as coded *)
+Theorem C15_tsai_urban_branches : forall umax fuel s x s',
+  tsai_urban_loop (T:=R) fuel umax s = Some (x, s') ->
+  exists pre u1 u2 u3, s = pre ++ u1 :: u2 :: u3 :: s' /\
+    let a := if Rltb u3 (1 / 4) then 16 / 10 else 16 / 10 / 3 in
+    let u := - ln (u1 * u2) * a in
+    u <= umax /\ x = 1 - 2 * (u / umax * (u / umax)).
+Proof. exact tsai_urban_branches. Qed.
+Print Assumptions C15_tsai_urban_branches.
+
+(** ** Part 6: IsotropicDistribution through ArrayUtils.hh from_spherical; the generic GenerateCanonical path *)
+Theorem C15_isotropic_quantile : forall u1 u2 s, canonical u1 -> canonical u2 ->
+  exists v, isotropic (T:=R) (u1 :: u2 :: s) = Some (v, s) /\
+    let c := 2 * u1 - 1 in let phi := twopi * u2 in
+    (vz v + 1) / 2 = u1 /\ -1 <= vz v < 1 /\ 0 <= phi < twopi /\ phi / twopi = u2 /\
+    vx v = R_sqrt.sqrt (1 - c * c) * cos phi /\ vy v = R_sqrt.sqrt (1 - c * c) * sin phi /\ vz v = c /\
+    dot v v = 1.
+Proof. exact isotropic_quantile. Qed.
+Print Assumptions C15_isotropic_quantile.
+
+(** std::generate_canonical<double, 53> as used by GenerateCanonical.hh, exact binary64 arithmetic in Z:
+    the result N / 2^64 lies in [0, 1); two words for a 32-bit engine, one for a 64-bit engine *)
+Theorem C15_canonical_generic_32 : forall x0 x1 rest, (0 <= x0 < 2 ^ 32)%Z -> (0 <= x1 < 2 ^ 32)%Z ->
+  exists N, canonical_generic true 32 (x0 :: x1 :: rest) = Some (N, 64%Z, rest) /\
+    (0 <= N < 2 ^ 64)%Z /\
+    let s := rnd53 (x0 + x1 * 2 ^ 32) in
+    ((s < 2 ^ 64)%Z /\ N = s) \/ (s = (2 ^ 64)%Z /\ N = (2 ^ 64 - 2 ^ 11)%Z).
+Proof. exact canonical_generic_32. Qed.
+Print Assumptions C15_canonical_generic_32.
+
+Theorem C15_canonical_generic_64 : forall x rest, (0 <= x < 2 ^ 64)%Z ->
+  exists N, canonical_generic true 64 (x :: rest) = Some (N, 64%Z, rest) /\
+    (0 <= N < 2 ^ 64)%Z /\
+    let s := rnd53 (rnd53 x) in
+    ((s < 2 ^ 64)%Z /\ N = s) \/ (s = (2 ^ 64)%Z /\ N = (2 ^ 64 - 2 ^ 11)%Z).
+Proof. exact canonical_generic_64. Qed.
+Print Assumptions C15_canonical_generic_64.
+
+(** without the [ret >= 1] repair of the standard library both engines can return exactly 1.0 *)
+Theorem C15_canonical_unclamped_reaches_one :
+  canonical_generic false 64 [2 ^ 64 - 1]%Z = Some ((2 ^ 64)%Z, 64%Z, []) /\
+  canonical_generic false 32 [2 ^ 32 - 1; 2 ^ 32 - 1]%Z = Some ((2 ^ 64)%Z, 64%Z, []) /\
+  canonical_generic true 64 [2 ^ 64 - 1]%Z = Some ((2 ^ 64 - 2 ^ 11)%Z, 64%Z, []) /\
+  canonical_generic true 32 [2 ^ 32 - 1; 2 ^ 32 - 1]%Z = Some ((2 ^ 64 - 2 ^ 11)%Z, 64%Z, []).
+Proof. exact canonical_unclamped_reaches_one. Qed.
+Print Assumptions C15_canonical_unclamped_reaches_one.
